@@ -20,7 +20,11 @@ ASSUMPTIONS = ["Z / ZZ use the library's own to_pm1 convention (0 -> -1); assert
 @st.composite
 def cases(draw, tier):
     t = draw(st.sampled_from(gen.TYPES))
-    sc = draw(gen.state_case(types=[t], n=(1, 4 if t == "density" else 5), nh=(1, 4), na=(1, 3), bound=100.0))
+    if draw(st.integers(0, 15)) == 0:
+        sc = draw(gen.state_case(types=[t], n=(5, 6) if t == "density" else (6, 8), nh=(1, 6), na=(1, 3), scales=[0.05, 0.5, 2.0], bound=100.0))   # beyond the box
+        sc["large"] = True
+    else:
+        sc = draw(gen.state_case(types=[t], n=(1, 4 if t == "density" else 5), nh=(1, 4), na=(1, 3), bound=100.0))
     return {"state": sc, "idx": draw(gen.index_list(sc["n"], 1, 5))}
 
 
